@@ -21,6 +21,7 @@ import (
 	"github.com/ethereum/go-ethereum/crypto"
 	"github.com/ethereum/go-ethereum/ethdb"
 	"github.com/ethereum/go-ethereum/ethdb/memorydb"
+	"github.com/ethereum/go-ethereum/rlp"
 	"github.com/ethereum/go-ethereum/trie"
 	"github.com/ethereum/go-ethereum/triedb"
 	. "gethverif/harness/hxlib"
@@ -418,6 +419,7 @@ func run(c Sx) Result {
 		kvs = append(kvs, kv{AsBytes(p[0]), AsBytes(p[1])})
 	}
 	t, truth := build(kvs)
+	crafted := len(top) >= 3 // hand-made (non-genuine) proof nodes: observed and compared with the model, not judged
 	var obs SL
 	var fails []string
 	tag := map[string]bool{}
@@ -427,6 +429,12 @@ func run(c Sx) Result {
 		more, class, pan := verify(q)
 		obs = append(obs, L(Bool(more), I(class)))
 		msg := judge(t, truth, q, more, class, pan)
+		if crafted {
+			msg = ""
+			if class == 99 {
+				msg = "unclassified error"
+			}
+		}
 		if msg != "" && len(fails) < 3 {
 			if strings.HasPrefix(msg, "C09-") {
 				fails = append(fails, msg)
@@ -471,6 +479,9 @@ func run(c Sx) Result {
 	}
 	for k := range tag {
 		res.Tags = append(res.Tags, k)
+	}
+	if crafted {
+		res.Tags = append(res.Tags, "crafted")
 	}
 	res.NonTrivial = n >= 2 && nacc >= 1 && nrej >= 1
 	return res
@@ -917,6 +928,128 @@ func genUniverse(r *Rng, em *emitter, maxKeys int, sample int, ntamper int) {
 	}
 }
 
+
+// ---------------------------------------------------------------- hand-made proof nodes
+
+func compact(hex []byte, term bool) []byte {
+	flag := byte(0)
+	if term {
+		flag = 0x20
+	}
+	var out []byte
+	if len(hex)%2 == 1 {
+		out = []byte{flag | 0x10 | hex[0]}
+		hex = hex[1:]
+	} else {
+		out = []byte{flag}
+	}
+	for i := 0; i+1 < len(hex); i += 2 {
+		out = append(out, hex[i]<<4|hex[i+1])
+	}
+	return out
+}
+
+func rlpEnc(v interface{}) []byte {
+	b, err := rlp.EncodeToBytes(v)
+	if err != nil {
+		panic("hxlib: rlp: " + err.Error())
+	}
+	return b
+}
+
+// ref: how a parent refers to the node with encoding enc (embedded when short)
+func ref(enc []byte) interface{} {
+	if len(enc) < 32 {
+		return rlp.RawValue(enc)
+	}
+	return crypto.Keccak256(enc)
+}
+
+func nibbles(k []byte) []byte {
+	var out []byte
+	for _, b := range k {
+		out = append(out, b>>4, b&15)
+	}
+	return out
+}
+
+func fullNode(children map[int]interface{}, val []byte) []byte {
+	l := make([]interface{}, 17)
+	for i := range l {
+		l[i] = []byte{}
+	}
+	for i, c := range children {
+		l[i] = c
+	}
+	l[16] = val
+	return rlpEnc(l)
+}
+
+// genCrafted emits cases whose proof sets contain nodes no trie produces: they exercise the
+// explicit panic / bad-node classes of the model against the real code (no oracle).
+func genCrafted(r *Rng, emit func(Sx), n int) {
+	for ci := 0; ci < n; ci++ {
+		k1 := []byte{byte(r.Intn(4)) << 4, byte(r.Intn(3))}
+		k2 := append([]byte{}, k1...)
+		k2[1] += 1 + byte(r.Intn(3))
+		val := r.Bytes(1 + r.Intn(40))
+		var blobs [][]byte
+		var root []byte
+		switch ci % 8 {
+		case 0: // a leaf with an EMPTY value on the start key's path
+			b := rlpEnc([]interface{}{compact(nibbles(k1), true), []byte{}})
+			blobs, root = [][]byte{b}, crypto.Keccak256(b)
+		case 1: // short -> short: an extension whose child is an embedded leaf
+			leaf := rlpEnc([]interface{}{compact(append(nibbles(k1)[1:3], 1), true), []byte{0x07}})
+			b := rlpEnc([]interface{}{compact(nibbles(k1)[:1], false), ref(leaf)})
+			blobs, root = [][]byte{b}, crypto.Keccak256(b)
+		case 2: // garbage under the root hash
+			b := r.Bytes(1 + r.Intn(50))
+			blobs, root = [][]byte{b}, crypto.Keccak256(b)
+		case 3: // a branch with a single child
+			leaf := rlpEnc([]interface{}{compact(nibbles(k1)[1:], true), val})
+			b := fullNode(map[int]interface{}{int(nibbles(k1)[0]): ref(leaf)}, nil)
+			blobs, root = [][]byte{b, leaf}, crypto.Keccak256(b)
+		case 4: // nested empty-key extensions around a leaf
+			var nd interface{} = []interface{}{compact(nibbles(k1), true), []byte{0x09}}
+			for d := 1 + r.Intn(6); d > 0; d-- {
+				nd = []interface{}{[]byte{0x00}, nd}
+			}
+			b := rlpEnc(nd)
+			blobs, root = [][]byte{b}, crypto.Keccak256(b)
+		case 5: // a branch holding a value in slot 16 next to children (prefix keys, hand-made)
+			leaf := rlpEnc([]interface{}{compact(nibbles(k1)[1:], true), val})
+			b := fullNode(map[int]interface{}{int(nibbles(k1)[0]): ref(leaf)}, []byte{0x55})
+			blobs, root = [][]byte{b, leaf}, crypto.Keccak256(b)
+		case 6: // a two-leaf trie built by hand (canonical): accepted like a genuine one
+			l1 := rlpEnc([]interface{}{compact(nibbles(k1)[3:], true), val})
+			l2 := rlpEnc([]interface{}{compact(nibbles(k2)[3:], true), []byte{0x33}})
+			br := fullNode(map[int]interface{}{int(nibbles(k1)[3-1]): ref(l1), int(nibbles(k2)[3-1]): ref(l2)}, nil)
+			b := rlpEnc([]interface{}{compact(nibbles(k1)[:2], false), ref(br)})
+			blobs, root = [][]byte{b, br, l1, l2}, crypto.Keccak256(b)
+		default: // an extension with an empty key above a leaf, hash-linked
+			leaf := rlpEnc([]interface{}{compact(nibbles(k1), true), r.Bytes(33)})
+			b := rlpEnc([]interface{}{[]byte{0x00}, crypto.Keccak256(leaf)})
+			blobs, root = [][]byte{b, leaf}, crypto.Keccak256(b)
+		}
+		var qs SL
+		add := func(first []byte, keys, vals [][]byte) {
+			qs = append(qs, resp{root: root, first: first, keys: keys, vals: vals, proof: blobs}.sx())
+		}
+		add(k1, nil, nil)
+		add(k2, nil, nil)
+		add([]byte{0xff, 0xff}, nil, nil)
+		add(k1, [][]byte{k1}, [][]byte{val})
+		add(k1, [][]byte{k1}, [][]byte{{0x09}})
+		add(k1, [][]byte{k2}, [][]byte{{0x33}})
+		add(k1, [][]byte{k1, k2}, [][]byte{val, {0x33}})
+		add([]byte{0x00, 0x00}, [][]byte{k1, k2}, [][]byte{val, {0x33}})
+		add([]byte{0x00, 0x00}, [][]byte{k2}, [][]byte{{0x07}})
+		add(k1[:1], [][]byte{k1}, [][]byte{val})
+		emit(L(SL{}, qs, I(1)))
+	}
+}
+
 func gen(r *Rng, tier string, emit func(Sx)) {
 	r = NewRng(r.U64())
 	thorough := tier == "thorough"
@@ -1021,6 +1154,13 @@ func gen(r *Rng, tier string, emit func(Sx)) {
 		}
 		em.flush()
 	}
+
+	// (4) hand-made proof nodes (model vs implementation only)
+	ncraft := 48
+	if thorough {
+		ncraft = 800
+	}
+	genCrafted(r, emit, ncraft)
 }
 
 func main() {
@@ -1035,6 +1175,7 @@ func main() {
 			"Honest responses carry the genuine Prove() nodes of the start key and of the last key; each is followed by tamperings: drop / duplicate / reorder / inject (sorted and unsorted) / re-key entries, " +
 			"alter / lengthen / empty a value, swap two values, claim a shorter run, keys-values length mismatch, drop or damage each proof node, one edge proof only, truncated edge proofs, proofs of other keys, " +
 			"nil proof for a partial run, empty proof set, start key moved (with and without an honest proof of the new one), start key moved below an omitted entry, proof set bloated with another trie's nodes, another trie's root, damaged root. " +
+			"(4) hand-made proof nodes no trie produces (leaf with empty value, extension over an embedded leaf, garbage root, single-child branch, nested empty-key extensions, branch value next to children, hash-linked empty-key extension): model vs implementation only, no oracle. " +
 			"Observables: (more, error class 0-17; 17 = panic). Oracle (on the implementation alone): accepted => the run equals the trie's contents over [firstKey, lastKey] (whole trie without proof; nothing at or after firstKey for an empty run) and more <=> entries beyond the last key; " +
 			"honest responses over fixed-length-key tries are accepted; no panic. Non-trivial: a trie with >= 2 keys, at least one accepted and one rejected query in the case.",
 		Gen: gen,
